@@ -247,9 +247,9 @@ func (s *Snapshot) GetWithPrefix(prefix []byte, neq []byte) (key []byte, value [
 //
 //	reader, err := snapshot.NewHistoryReader(&HistoryReaderSpec{Key: []byte("key"), Limit: 10})
 func (s *Snapshot) NewHistoryReader(spec *HistoryReaderSpec) (*HistoryReader, error) {
-	// Acquire a read lock on the snapshot
-	s.mutex.RLock()
-	defer s.mutex.RUnlock()
+	// the readers map and maxReaderID are modified: the write lock is required
+	s.mutex.Lock()
+	defer s.mutex.Unlock()
 
 	// Check if the snapshot is closed
 	if s.closed {
